@@ -7,6 +7,12 @@
                               Polish notation: `n<int>` `v<name>` `p<lexeme> e` `q<lexeme> e`
                               `b<lexeme> l r` `c c t e`
     P <env> <text> [<tree>]   the same with `Config { portable: true }` (`++`/`--` anywhere are an error)
+    Z <env> <tree>            size family: the tree is given in Polish notation with the macro `s<n>` (a balanced
+                              sum of n constants, 2n-1 nodes); the harness renders it (up to ~1 MB of text) and
+                              evaluates the text; the text is NOT sent.  Both columns here are `Spec.evalExact` of
+                              the tree: `text_gets_its_C_value_all_spellings` proves that this is what the model
+                              (`evalStr`) returns on every spelling of the tree, of any size — the list-based
+                              model itself is quadratic and would need minutes for 130 KB.
     U <text>                  totality only (text with non-ASCII alphanumerics, outside the model)
     S <opts> <globals> <kind> <locals> <exprs>
                               shell-level scenario (see `Shell.lean`): opts `-` or flags `u` (set -u) `p` (set -o
@@ -53,6 +59,15 @@ def showSpec : Option (Int × Spec.Env) → String
   | some (v, env) => s!"ok {v} {showEnv env}"
   | none => "error"
 
+/-- the balanced sum `l_lo + … + l_(hi-1)` with `l_i = i % 7 + 1`, split in the middle (depth ≈ log₂ n) -/
+def bigSum : Nat → Nat → Nat → Spec.Expr
+  | 0, lo, _ => .num (lo % 7 + 1)
+  | f + 1, lo, hi =>
+    if hi ≤ lo + 1 then .num (lo % 7 + 1)
+    else
+      let mid := (lo + hi) / 2
+      .bin .Add (bigSum f lo mid) (bigSum f mid hi)
+
 /-- Polish-notation tree sent by the harness -/
 def parsePolish : Nat → List String → Option (Spec.Expr × List String)
   | 0, _ => none
@@ -74,6 +89,10 @@ def parsePolish : Nat → List String → Option (Spec.Expr × List String)
       let (l, r1) ← parsePolish f rest
       let (r, r2) ← parsePolish f r1
       pure (.bin b l r, r2)
+    | 's' :: ds => do
+      -- macro: a balanced sum of `n` small constants (2n-1 nodes), see `bigSum`
+      let n ← (String.ofList ds).toNat?
+      if n = 0 then none else pure (bigSum 64 0 n, rest)
     | ['c'] => do
       let (c, r1) ← parsePolish f rest
       let (t, r2) ← parsePolish f r1
@@ -297,6 +316,14 @@ def runLine (line : String) : String :=
   | "E" :: envT :: textT :: tree => runE false envT textT tree
   | "P" :: envT :: textT :: tree => runE true envT textT tree
   | ["U", _] => "total\t-"
+  | "Z" :: envT :: tree =>
+    match decEnv envT, parsePolish (tree.length + 1) tree with
+    | some env, some (e, []) =>
+      if !Spec.inScope e then "bad-case\t-"
+      else
+        let o := showSpec (Spec.evalExact e env)
+        o ++ "\t=" ++ o
+    | _, _ => "bad-case\t-"
   | ["S", opts, globals, kind, locals, exprs] => runS opts globals kind locals exprs
   | _ => "bad-case\t-"
 
